@@ -15,40 +15,52 @@ type recDB struct {
 	ops     []byte // 'p' put, 'd' delete, 'f' flush, 'c' cancel
 	onFlush func()
 	inAudit bool
+	gen     int // number of commits/rollbacks so far
 }
 
+// A bucket handle belongs to the transaction it was obtained in: on the
+// Bolt-backed database it dies with the next Flush or Cancel (bbolt panics or
+// reads freed pages). The recorder holds every user of the DB interface to
+// that discipline, so that what is decided over MemDB carries over to Bolt.
 type recBucket struct {
-	b  DBBucket
-	db *recDB
+	b   DBBucket
+	db  *recDB
+	gen int
 }
 
-func (b recBucket) Get(key []byte) []byte { return b.b.Get(key) }
+func (b recBucket) live() {
+	vapi.Assert("backend.bucket-handle-not-used-across-a-commit", b.gen == b.db.gen)
+}
+func (b recBucket) Get(key []byte) []byte { b.live(); return b.b.Get(key) }
 func (b recBucket) Put(key, value []byte) error {
+	b.live()
 	b.db.ops = append(b.db.ops, 'p')
 	return b.b.Put(key, value)
 }
 func (b recBucket) Delete(key []byte) error {
+	b.live()
 	b.db.ops = append(b.db.ops, 'd')
 	return b.b.Delete(key)
 }
-func (b recBucket) Iter() iter.Seq2[[]byte, []byte] { return b.b.Iter() }
+func (b recBucket) Iter() iter.Seq2[[]byte, []byte] { b.live(); return b.b.Iter() }
 
 func (db *recDB) Bucket(name []byte) DBBucket {
 	b := db.inner.Bucket(name)
 	if b == nil {
 		return nil
 	}
-	return recBucket{b, db}
+	return recBucket{b, db, db.gen}
 }
 func (db *recDB) CreateBucket(name []byte) (DBBucket, error) {
 	b, err := db.inner.CreateBucket(name)
 	if err != nil {
 		return nil, err
 	}
-	return recBucket{b, db}, nil
+	return recBucket{b, db, db.gen}, nil
 }
 func (db *recDB) Flush() error {
 	db.ops = append(db.ops, 'f')
+	db.gen++
 	err := db.inner.Flush()
 	if db.onFlush != nil && !db.inAudit {
 		db.inAudit = true
@@ -57,7 +69,7 @@ func (db *recDB) Flush() error {
 	}
 	return err
 }
-func (db *recDB) Cancel() { db.ops = append(db.ops, 'c'); db.inner.Cancel() }
+func (db *recDB) Cancel() { db.ops = append(db.ops, 'c'); db.gen++; db.inner.Cancel() }
 
 // recStore wraps the real DBStore: it records the tips the node had and checks
 // that within one ApplyBlock/RevertBlock a flush, if any, is the last write.
